@@ -62,3 +62,34 @@ Proof.
   intros I i j HI Hi Hj. unfold rval. ub. rewrite ?bcast_nil_r.
   rewrite bproj_id by assumption. rewrite (idx1 (nr A)), (idx1 (nc A)) by assumption. reflexivity.
 Qed.
+
+(* ---- a tensor of rank >= 2 as a batched matrix ------------------------------------------------------------------------------ *)
+
+Lemma to_raw_of_raw r c rw bs : bsh r = c :: rw :: bs -> nr r = 1%nat -> nc r = 1%nat -> r == to_raw (of_raw r).
+Proof.
+  intros E N1 N2. unfold to_raw, of_raw, mkraw. rewrite E. apply BTeq_intro; simpl; try assumption.
+  intros I i j HI Hi Hj. rewrite E in HI. rewrite N1 in Hi. rewrite N2 in Hj.
+  destruct I as [|a [|b I]]; simpl in HI; try tauto.
+  unfold rval. assert (i = 0)%nat by lia. assert (j = 0)%nat by lia. subst. reflexivity.
+Qed.
+
+Lemma of_raw_eq a b c rw bs : a == b -> bsh a = c :: rw :: bs -> nr a = 1%nat -> nc a = 1%nat -> of_raw a == of_raw b.
+Proof.
+  intros HE E N1 N2. pose proof HE as (H1 & H2 & H3 & H4). unfold of_raw. rewrite <- H1, E.
+  apply BTeq_intro; simpl; try reflexivity.
+  intros I i j HI Hi Hj. unfold rval. apply H4; [rewrite E; simpl; tauto| |]; lia.
+Qed.
+
+Lemma rmul_raw_mat X r : bsh r = nc X :: nr X :: tl (tl (bsh r)) -> nr r = 1%nat -> nc r = 1%nat ->
+  bcompat (bsh X) (tl (tl (bsh r))) = true ->
+  of_raw (rmul (to_raw X) r) == dhad X (of_raw r).
+Proof.
+  intros E N1 N2 CB.
+  assert (R : r == to_raw (of_raw r)) by (eapply to_raw_of_raw; eassumption).
+  assert (Q : rmul (to_raw X) r == rmul (to_raw X) (to_raw (of_raw r))).
+  { unfold rmul. apply dhad_eq; [apply BTeq_refl|exact R| | |]; simpl; try congruence.
+    rewrite E. simpl. rewrite !Nat.eqb_refl. simpl. exact CB. }
+  eapply BTeq_trans; [eapply of_raw_eq; [exact Q| |reflexivity|reflexivity]|].
+  - unfold rmul. simpl. rewrite E. simpl. destruct (Nat.eqb (nc X) 1), (Nat.eqb (nr X) 1); reflexivity.
+  - apply rmul_same; unfold of_raw; rewrite E; reflexivity.
+Qed.
